@@ -496,6 +496,9 @@ Exec(P, s, st) ==
     [] s.t = "emit"     -> LET v == MapGet(st.oos, S(s.name)) IN
                            IF v.k = "absent" THEN st
                            ELSE [st EXCEPT !.out = @ \o (IF s.by = <<>> THEN EmitTerminal(s.name, v) ELSE EmitBy(s.name, v, s.by, <<>>))]
+    \* dump: "prints all defined out-of-stream variables immediately to stdout as JSON" (the harness joins the lines of the
+    \* block into one: "D:" and the map as json_stringify prints it)
+    [] s.t = "dump"     -> [st EXCEPT !.out = Append(@, <<"p", "D:" \o Str(M(st.oos))>>)]
     [] s.t = "emitp"    -> LET v == MapGet(st.oos, S(s.name)) IN
                            IF v.k = "absent" THEN st
                            ELSE [st EXCEPT !.out = @ \o EmitPBy(s.name, v, s.by, <<>>)]
@@ -585,6 +588,7 @@ UnS(s) ==
     [] s.t = "pattern" -> UnE(s.c) \o " " \o UnBlock(s.body)
     [] s.t = "filter" -> "filter " \o UnE(s.e) \o ";"
     [] s.t = "emit"   -> "emit @" \o s.name \o Join([i \in 1..Len(s.by) |-> ", \"" \o s.by[i] \o "\""], "") \o ";"
+    [] s.t = "dump"   -> "dump;"
     [] s.t = "emitp"  -> "emitp @" \o s.name \o Join([i \in 1..Len(s.by) |-> ", \"" \o s.by[i] \o "\""], "") \o ";"
     [] s.t = "emitf"  -> "emitf " \o Join([i \in 1..Len(s.names) |-> "@" \o s.names[i]], ", ") \o ";"
     [] s.t = "emit1"  -> "emit1 " \o UnE(s.e) \o ";"
